@@ -106,7 +106,12 @@ Eval(i) ==
              IF rec.lookup[k][2] = "nosuch" /\ Sid(rec.lookup[k][1], 0) \in DOMAIN b.ss
              THEN PrintT(<<"PROP", <<"C17", "LookupSound">>, rec.h, rec.i>>) ELSE TRUE
   ELSE IF rec.k = "streams"
-  THEN \A q \in DOMAIN rec.streams :
+  THEN /\ \A q \in DOMAIN rec.httplk :
+            (* C17, HTTP level: an id newer than anything this node has applied is "not yet seen" (500 / proxy), *)
+            (* never 404 "no such session" - a lagging node must not tell a client its live session is gone     *)
+            IF rec.httplk[q][1] = 1 /\ rec.httplk[q][2] = 404
+            THEN PrintT(<<"PROP", <<"C17", "HttpLookupSound">>, rec.h, rec.i>>) ELSE TRUE
+       /\ \A q \in DOMAIN rec.streams :
          IF StreamOk(i, q) THEN TRUE
          ELSE /\ PrintT(<<"PROP", <<"C12", "StreamIsEntitledReplies">>, rec.h, rec.i>>)
               /\ PrintT(<<"STREAM", rec.h, rec.streams[q].sid, rec.streams[q].live, rec.streams[q].polls, Len(rec.streams[q].got),
